@@ -97,6 +97,33 @@ for kind in KINDS:
                outside='ordering across threads')
 
 
+def do_fo_rejected(session, c0, o_t_id, rpi):
+    """a Forward Open the Connection Manager REFUSES (a second one for an O->T connection id this peer already holds; O->T multicast keeps the
+    originator's id) still gets exactly one reply: the request's service with the reply bit, a CIP error status, same context/session"""
+    device.Connection_Manager.forwards = {}
+    ncp_ = ref.ncp(500, True, 0, 1, False, False)
+    path = [{'port': 1, 'link': 0}, {'class': 2}, {'instance': 1}]
+    ctx = [c0, 1, 2, 3, 4, 5, 6, 7]
+    ok = True
+    for k in (0, 1):
+        fo = ref.forward_open(False, 5, 157, o_t_id, 0x22 + k, 3, 4, 5, 1, rpi + k, ncp_, rpi + k, ncp_, 0xa3, path)
+        proceed, rpy, data = sim.process(rr_frame(session, ctx, 0, fo, routed=False), tags=TAGS)
+        if not proceed or rpy is None:
+            return False
+        good, e, r = decode_reply(rpy)
+        ok = ok and good and e['session'] == session and e['context'] == ctx and e['status'] == 0 and r is not None
+        ok = ok and r['service'] == 0xd4 and (r['status'] == 0) == (k == 0)
+    device.Connection_Manager.forwards = {}
+    return ok
+
+
+define(globals(), 'C06', 'one_reply_forward_open_refused', ['session', 'c0', 'o_t_id', 'rpi'], "return do_fo_rejected(session, c0, o_t_id, rpi)",
+       ['0 <= session <= 0xFFFFFFFF and 0 <= c0 <= 255 and 0 <= o_t_id <= 0xFFFFFFFF and 0 <= rpi < 0xFFFFFFFF'], timeout=1800, path_timeout=300, drives=DRIVES, stubs=STUBS,
+       symbolic=['session handle', 'c0: sender context byte', 'O->T connection id', 'RPI'],
+       bounds='a Forward Open (accepted) followed by a conflicting Forward Open for the same O->T id from the same peer (refused): each gets exactly one reply frame with '
+              'the same sender context and session, service 0x54|0x80; status 0 for the first, a CIP error status for the second', outside='other refusal causes')
+
+
 def do_unsupported_service(svc, session, c0):
     req = [svc] + ref.epath([{'class': 2}, {'instance': 1}])
     ctx = [c0, 9, 9, 9, 9, 9, 9, 9]
